@@ -77,12 +77,14 @@ class Effects:
                     pass
             if defs:
                 classes = {self.path_class(fi, d.value, depth + 1, d.lineno - 1 if _mentions(d.value, expr.id) else d.lineno) for d in defs}
-                for pref in ("DERIVED", "TMP", "HASHMAP", "NEXTIDS", "WHITELIST", "DB"):
+                for pref in ("DERIVED", "TMP", "HASHMAP", "NEXTIDS", "WHITELIST", "DB", "PARAM"):
                     for c in classes:
                         if c.startswith(pref):
                             return c
                 return "PAGE"
-            return "PAGE"  # parameter / loop variable
+            if expr.id in {a.arg for a in fi.params()} and expr.id not in ("self", "cls"):
+                return f"PARAM:{expr.id}"
+            return "PAGE"  # loop variable etc.
         if isinstance(expr, ast.Attribute):
             if expr.attr == "parent":
                 return self.path_class(fi, expr.value, depth + 1, line)
@@ -241,13 +243,40 @@ class Effects:
             while changed:
                 changed = False
                 for q in cur:
-                    for _, t in cg.get(q, []):
-                        new = cur.get(t, set()) - cur[q]
+                    fq = self.model.funcs[q]
+                    for call, t in cg.get(q, []):
+                        inst = {self.instantiate(fq, call, t, tag) for tag in cur.get(t, set())}
+                        new = inst - cur[q]
                         if new:
                             cur[q] |= new
                             changed = True
             self._may = cur
         return self._may.get(qualname, set())
+
+    def instantiate(self, caller: FuncInfo, call: ast.Call, callee_q: str, tag: str) -> str:
+        """Replace PARAM:<name> in a callee's effect tag by the class of the actual argument."""
+        if "PARAM:" not in tag:
+            return tag
+        callee = self.model.funcs.get(callee_q)
+        if callee is None or not isinstance(call, ast.Call):
+            return tag.replace("PARAM:", "PAGE#")
+        head, _, pname = tag.partition("PARAM:")
+        pname = pname.split("->")[0]
+        names = [a.arg for a in callee.params()]
+        if names and names[0] in ("self", "cls"):
+            names = names[1:]
+        actual = None
+        for k in call.keywords:
+            if k.arg == pname:
+                actual = k.value
+        if actual is None and pname in names:
+            i = names.index(pname)
+            if i < len(call.args):
+                actual = call.args[i]
+        if actual is None:
+            return head + "PAGE"
+        cls = self.path_class(caller, actual)
+        return head + cls
 
     def call_effects(self, fi: FuncInfo, node: ast.AST) -> list[tuple[ast.AST, str, set[str]]]:
         """For every call inside ``node`` that resolves to a zorg function: (call, qualname, may-tags)."""
@@ -260,7 +289,7 @@ class Effects:
                     init = self.model.find_method(self.model.classes[t], "__init__")
                     t = init.qualname if init else None
                 if t in self.model.funcs:
-                    out.append((n, t, self.may(t)))
+                    out.append((n, t, {self.instantiate(fi, n, t, tag) for tag in self.may(t)}))
         return out
 
     def node_tags(self, fi: FuncInfo, node: ast.AST) -> list[tuple[ast.AST, str, str]]:
